@@ -873,7 +873,7 @@ func (w *World) checkExistential(r *Report, key string, fn *ssa.Function, prims 
 			}
 		}
 		if hasSel {
-			if cyc := residualCycle(comp, inComp, cut); cyc != nil {
+			if cyc := w.residualCycleFeasible(comp, inComp, cut, sel); cyc != nil {
 				okAll = false
 				why = fmt.Sprintf("the loop can pull the next node (through block %d) without comparing the current one: a node whose value is not a number is skipped instead of being compared as NaN, so `!=` misses it", cyc.Index)
 			}
@@ -916,8 +916,7 @@ func (w *World) edgeIsSelectNil(p, b *ssa.BasicBlock, sel string, depth int) boo
 	} else {
 		return false
 	}
-	call, ok := v.(*ssa.Call)
-	if !ok || !call.Call.IsInvoke() || call.Call.Method.Name() != sel {
+	if !isSelectResult(v, sel, 0) {
 		return false
 	}
 	eq := cmp.Op == token.EQL
@@ -1004,4 +1003,151 @@ func (w *World) checkOperandOrder(r *Report, key string, fn *ssa.Function, prims
 			r.skip("A-CELLS", key+":order", w.instrPos(c), "operands reach the primitive swapped; only observable for relational operators on strings, which C07 does not cover")
 		}
 	})
+}
+
+// isSelectResult: v is the result of a Select invoke, or a merge of such
+// results (the loop variable of `for n := q.Select(t); n != nil; n = q.Select(t)`).
+func isSelectResult(v ssa.Value, sel string, depth int) bool {
+	if depth > 4 {
+		return false
+	}
+	switch x := v.(type) {
+	case *ssa.Call:
+		return x.Call.IsInvoke() && x.Call.Method.Name() == sel
+	case *ssa.Phi:
+		for _, e := range x.Edges {
+			if !isSelectResult(e, sel, depth+1) {
+				return false
+			}
+		}
+		return len(x.Edges) > 0
+	}
+	return false
+}
+
+// residualCycleFeasible: like residualCycle, but a way round is followed edge
+// by edge, and the "is nil" side of a test of a merged Select result is not
+// taken when the value merged in along the edge just travelled was already
+// tested non-nil on a dominating edge (a redundant loop guard on entry).
+func (w *World) residualCycleFeasible(comp []*ssa.BasicBlock, inComp, cut map[*ssa.BasicBlock]bool, sel string) *ssa.BasicBlock {
+	type edge struct{ from, to *ssa.BasicBlock }
+	knownNonNil := func(v ssa.Value, at *ssa.BasicBlock) bool {
+		for _, u := range uses(v) {
+			bo, ok := u.(*ssa.BinOp)
+			if !ok || !(isNilConst(bo.X) || isNilConst(bo.Y)) {
+				continue
+			}
+			for _, uu := range uses(bo) {
+				ifi, ok := uu.(*ssa.If)
+				if !ok {
+					continue
+				}
+				nn := ifi.Block().Succs[1]
+				if bo.Op == token.NEQ {
+					nn = ifi.Block().Succs[0]
+				}
+				if len(nn.Preds) == 1 && (nn == at || nn.Dominates(at)) {
+					return true
+				}
+			}
+		}
+		return false
+	}
+	feasible := func(p, b, s *ssa.BasicBlock) bool {
+		ifi := blockIf(b)
+		if ifi == nil || p == nil {
+			return true
+		}
+		cmp, neg := decodeCond(ifi.Cond)
+		if cmp == nil {
+			return true
+		}
+		var v ssa.Value
+		if isNilConst(cmp.Y) {
+			v = cmp.X
+		} else if isNilConst(cmp.X) {
+			v = cmp.Y
+		} else {
+			return true
+		}
+		ph, ok := v.(*ssa.Phi)
+		if !ok || ph.Block() != b || !isSelectResult(ph, sel, 0) {
+			return true
+		}
+		eq := cmp.Op == token.EQL
+		if neg {
+			eq = !eq
+		}
+		nilSucc := b.Succs[1]
+		if eq {
+			nilSucc = b.Succs[0]
+		}
+		if s != nilSucc {
+			return true
+		}
+		for i, pred := range b.Preds {
+			if pred != p {
+				continue
+			}
+			if knownNonNil(ph.Edges[i], p) {
+				return false
+			}
+			// the edge p->b itself is the non-nil side of a test of that value
+			if pif := blockIf(p); pif != nil {
+				if pc, pneg := decodeCond(pif.Cond); pc != nil && (isNilConst(pc.X) || isNilConst(pc.Y)) {
+					tested := pc.X
+					if isNilConst(pc.X) {
+						tested = pc.Y
+					}
+					peq := pc.Op == token.EQL
+					if pneg {
+						peq = !peq
+					}
+					nonNilSucc := p.Succs[0]
+					if peq {
+						nonNilSucc = p.Succs[1]
+					}
+					if tested == ph.Edges[i] && nonNilSucc == b {
+						return false
+					}
+				}
+			}
+		}
+		return true
+	}
+	color := map[edge]int{}
+	var found *ssa.BasicBlock
+	var dfs func(e edge)
+	dfs = func(e edge) {
+		color[e] = 1
+		b := e.to
+		if !cut[b] {
+			for _, s := range b.Succs {
+				if found != nil {
+					return
+				}
+				if !inComp[s] || !feasible(e.from, b, s) {
+					continue
+				}
+				ne := edge{b, s}
+				switch color[ne] {
+				case 1:
+					found = s
+					return
+				case 0:
+					dfs(ne)
+				}
+			}
+		}
+		color[e] = 2
+	}
+	for _, b := range comp {
+		for _, p := range b.Preds {
+			e := edge{p, b}
+			if color[e] == 0 && found == nil {
+				dfs(e)
+			}
+		}
+	}
+	return found
 }
